@@ -18,6 +18,7 @@ import (
 	"lunar/engine/streams"
 	stream_config "lunar/engine/streams/config"
 	lunar_context "lunar/engine/streams/lunar-context"
+	publictypes "lunar/engine/streams/public-types"
 	stream_types "lunar/engine/streams/types"
 	"lunar/engine/utils/environment"
 	"verifharness/mc"
@@ -119,6 +120,10 @@ func Remove(root string) {
 
 var SharedState = lunar_context.NewMemoryState[[]byte]()
 
+// LastContext is the execution context the last transaction ended with (the context of the
+// last flow that ran for it): lets harnesses dump the flow context for state keys.
+var LastContext publictypes.LunarContextI
+
 type Req struct {
 	ID      string
 	Seq     string
@@ -178,7 +183,9 @@ func OnRequest(s *streams.Stream, r Req) Verdict {
 	api := stream_types.NewRequestAPIStream(r.msg(), SharedState)
 	fa := &stream_config.StreamActions{Request: &stream_config.RequestStream{}}
 	var v Verdict
-	if err := runner.RunFlow(s, api, fa); err != nil {
+	err := runner.RunFlow(s, api, fa)
+	LastContext = api.GetContext()
+	if err != nil {
 		v.Err = err.Error()
 		return v
 	}
@@ -237,7 +244,9 @@ func OnResponse(s *streams.Stream, r Resp) RespVerdict {
 		Status: st, Headers: h, Body: r.Body, RawBody: []byte(r.Body)}, SharedState)
 	fa := &stream_config.StreamActions{Response: &stream_config.ResponseStream{}}
 	var v RespVerdict
-	if err := runner.RunFlow(s, api, fa); err != nil {
+	err := runner.RunFlow(s, api, fa)
+	LastContext = api.GetContext()
+	if err != nil {
 		v.Err = err.Error()
 		return v
 	}
